@@ -518,5 +518,97 @@ theorem dmRunH_eq_stab (ne np : Nat) (d : Det) (script : List Bool) (ops : List 
   rw [ket0H_eq]
   exact dmRunFromH_eq_stab (Tab.ket0 (ne + np)) (Tab.ket0_valid _) (ket0_stabReal _) np d script ops hwf s h
 
+/-! ### the failing runs agree too -/
+
+/-- where the stabilizer step rejects an operation (a qubit index out of range) the density-matrix step does too -/
+theorem dmStepH_none (np n : Nat) (d : Det) (s : RunState) (h : HState n) (op : COp)
+    (hs : stepOp np n d s op = none) : dmStepH np n d h op = none := by
+  cases op <;> simp only [stepOp] at hs <;> simp only [dmStepH] <;> split at hs <;>
+    first
+    | (rename_i hq; rw [if_neg hq])
+    | cases hs
+
+theorem dmFoldH_map (np n : Nat) (d : Det) (ops : List COp) (hwf : ∀ op, op ∈ ops → op.WF np) :
+    ∀ (s : RunState), RunInv n s →
+      ops.foldlM (dmStepH np n d) (hstate n s) = (ops.foldlM (stepOp np n d) s).map (hstate n) := by
+  induction ops with
+  | nil => intro s _; rfl
+  | cons op rest ih =>
+    intro s hinv
+    simp only [List.foldlM]
+    cases h1 : stepOp np n d s op with
+    | none =>
+      rw [dmStepH_none np n d s _ op h1]
+      rfl
+    | some s1 =>
+      rw [dmStepH_stab np n d s s1 op (hwf op List.mem_cons_self) hinv h1]
+      simp only [Option.bind_eq_bind, Option.bind_some]
+      exact ih (fun o ho => hwf o (List.mem_cons_of_mem _ ho)) s1
+        (stepOp_inv np n d s s1 op (hwf op List.mem_cons_self) hinv h1)
+
+/-- **Backend agreement, total form**: the two compile loops fail on the same circuits (an index out of range) and
+    otherwise `dmRunH = ρ(stabRun)` with the same record. -/
+theorem dmRunH_eq_map (ne np : Nat) (d : Det) (script : List Bool) (ops : List COp)
+    (hwf : ∀ op, op ∈ ops → op.WF np) :
+    dmRunH ne np d script ops = (stabRun ne np d script ops).map (hstate (ne + np)) := by
+  unfold stabRun stabRunFrom dmRunH dmRunFromH
+  rw [ket0H_eq]
+  exact dmFoldH_map np (ne + np) d ops hwf
+    { t := Tab.ket0 (ne + np), writes := [], script := script, rand := [], outs := [] }
+    ⟨Tab.ket0_valid _, rfl, ket0_stabReal _⟩
+
+/-- an operation whose qubit indices are in range -/
+def COp.InRange (np n : Nat) : COp → Prop
+  | .gate1 _ q | .pdag q | .measz q _ | .wrap _ q => qIndex np q < n
+  | .cnot c t | .cz c t | .ccx c t _ | .ccz c t _ | .mcr c t _ => qIndex np c < n ∧ qIndex np t < n
+
+theorem stepOp_isSome (np n : Nat) (d : Det) (s : RunState) (op : COp) (h : COp.InRange np n op) :
+    ∃ s', stepOp np n d s op = some s' := by
+  cases op <;> simp only [COp.InRange] at h <;> simp only [stepOp, h, if_true, and_self] <;> exact ⟨_, rfl⟩
+
+/-- the stabilizer compile loop returns on every circuit whose indices are in range -/
+theorem stabFold_total (np n : Nat) (d : Det) (ops : List COp) (h : ∀ op, op ∈ ops → COp.InRange np n op) :
+    ∀ s : RunState, ∃ s', ops.foldlM (stepOp np n d) s = some s' := by
+  induction ops with
+  | nil => intro s; exact ⟨s, rfl⟩
+  | cons op rest ih =>
+    intro s
+    obtain ⟨s1, h1⟩ := stepOp_isSome np n d s op (h op List.mem_cons_self)
+    obtain ⟨s2, h2⟩ := ih (fun o ho => h o (List.mem_cons_of_mem _ ho)) s1
+    refine ⟨s2, ?_⟩
+    simp only [List.foldlM, h1, Option.bind_eq_bind, Option.bind_some]
+    exact h2
+
+/-! ### consequences for the matrix the density-matrix backend returns -/
+
+/-- the final matrix is a pure stabilizer state: Hermitian, idempotent, trace 1 -/
+theorem hstate_pure (n : Nat) (s : RunState) (h : RunInv n s) :
+    ((hstate n s).ρ)ᴴ = (hstate n s).ρ ∧ (hstate n s).ρ * (hstate n s).ρ = (hstate n s).ρ ∧
+    Matrix.trace (hstate n s).ρ = 1 := by
+  obtain ⟨hv, hn, _⟩ := h
+  subst hn
+  exact ⟨tabRho_hermitian s.t hv, tabRho_idem s.t hv, tabRho_trace s.t hv⟩
+
+theorem stabRun_inv (ne np : Nat) (d : Det) (script : List Bool) (ops : List COp)
+    (hwf : ∀ op, op ∈ ops → op.WF np) (s : RunState) (h : stabRun ne np d script ops = some s) :
+    RunInv (ne + np) s := by
+  unfold stabRun stabRunFrom at h
+  have key : ∀ (ops : List COp), (∀ op, op ∈ ops → op.WF np) → ∀ s0 s1 : RunState, RunInv (ne + np) s0 →
+      ops.foldlM (stepOp np (ne + np) d) s0 = some s1 → RunInv (ne + np) s1 := by
+    intro ops
+    induction ops with
+    | nil => intro _ s0 s1 h0 hs; simp only [List.foldlM] at hs; injection hs with hs; rw [← hs]; exact h0
+    | cons op rest ih =>
+      intro hw s0 s1 h0 hs
+      simp only [List.foldlM] at hs
+      cases h1 : stepOp np (ne + np) d s0 op with
+      | none => rw [h1] at hs; simp at hs
+      | some s' =>
+        rw [h1] at hs
+        simp only [Option.bind_eq_bind, Option.bind_some] at hs
+        exact ih (fun o ho => hw o (List.mem_cons_of_mem _ ho)) s' s1
+          (stepOp_inv np (ne + np) d s0 s' op (hw op List.mem_cons_self) h0 h1) hs
+  exact key ops hwf _ s ⟨Tab.ket0_valid _, rfl, ket0_stabReal _⟩ h
+
 end DMH
 end Graphiq
